@@ -207,9 +207,12 @@ def run(ctx):
 
     # ---------------- W4 decoded payload never swallowed ----------------------------------------------------
     n = 0
+    from .c04 import is_datagram
     for b in prog.methods_of_trait_impls("Decoder", "decode"):
         if not (b.defp.startswith("octo_squirrel_server") or b.defp.startswith("octo_squirrel_client")):
             continue
+        if is_datagram(prog, b):
+            continue  # a datagram codec may drop a datagram (replay filter): C11-F2 requires exactly that
         rv = returns_variant(b)
         none_rets = [blk for blk, v in rv.items() if v == "Ok" and blk not in ok_some_blocks(b)]
         for (blk, c, t) in b.calls():
@@ -230,7 +233,7 @@ def run(ctx):
                    "every path after the inner decode produced plaintext returns it" if not swallowed else
                    "after the inner (authenticated) decode returned plaintext the codec can still answer need-more: the decrypted bytes are dropped "
                    "(server Shadowsocks: whenever no target address has been parsed, i.e. always for the three legacy ciphers)")
-    ctx.floor("W4", "inner decode call sites in codecs", 3, n)
+    ctx.floor("W4", "inner decode call sites in stream codecs", 3, n)
     w5(ctx)
 
 
